@@ -245,6 +245,10 @@ def events_for(pp, rnd, A, tag):
     slot = rnd.choice(["nterm", "cterm", "labile", "unknown", "internal", "interval", "interval"])
     n_ = rnd.choice([1, 7, 42])
     x_, y_ = {"v": f"i:{n_}", "m": 2}, {"v": f"f:{n_}.0", "m": 1}
+    if rnd.random() < 0.5:
+        # ... or one value twice with different multipliers ([a]^2[a] against [a][a]^2)
+        v_ = rnd.choice(["s:Oxidation", "s:a", "f:-18.01", f"i:{n_}"])
+        x_, y_ = {"v": v_, "m": rnd.choice([2, 3])}, {"v": v_, "m": 1}
     A4, B4 = copy.deepcopy(A), copy.deepcopy(A)
     if slot == "internal":
         for C_, ms in ((A4, [x_, y_]), (B4, [y_, x_])):
@@ -259,7 +263,7 @@ def events_for(pp, rnd, A, tag):
         A4[slot], B4[slot] = [x_, y_], [y_, x_]
     xo, yo = anngen.build(pp, A4), anngen.build(pp, B4)
     o, r = call(lambda: (bool(xo == yo), bool(yo == xo), bool(xo == xo)))
-    evs.append({"op": "eq", "tid": f"{tag}.eqnum.{len(evs)}", "k": "c20", "A": A4, "out": o, "B": B4, "what": "order_of_a_whole_number_and_its_float",
+    evs.append({"op": "eq", "tid": f"{tag}.eqnum.{len(evs)}", "k": "c20", "A": A4, "out": o, "B": B4, "what": "order_of_two_modifications_with_one_value",
                 "ab": r[0] if o == "ret" else False, "ba": r[1] if o == "ret" else False, "aa": r[2] if o == "ret" else False})
     return evs
 
